@@ -1056,6 +1056,12 @@ fn lut_cond(e: &ProtoExpression) -> Option<(&ProtoExpression, u64, u64)> {
             ..
         } => {
             let m = lut_const_u64(ay)?;
+            // A compared constant bit outside the AND mask makes the arm
+            // unmatchable; `k & mask` below would turn it into one that
+            // matches.  Leave such a chain to the compare cascade.
+            if k.payload & mask & !m != 0 {
+                return None;
+            }
             mask &= m;
             ax.as_ref()
         }
